@@ -148,6 +148,26 @@ CLAIMED["C19"] = dict(
          "exact discrete recoveries (k list, psd/|X|^2 snapped to {1,2}/(fs n), segments); values and Parseval to 1e-9 relative.",
     technique="Coq proof over an executable model with the FFT as a Section variable + extracted-model/implementation correspondence + statement oracle",
     design="5 C19")
+CLAIMED["C13"] = dict(
+    text="Proof: for every key form of IntervalSet / TsdFrame / TsGroup indexing (pandas keys with any index order included) and for intersect, set_diff, split, "
+         "restrict/get/arithmetic and merge_group, each output element carries exactly the metadata row and label of the input element it is (or of the parent interval(s) that "
+         "contain it); merge_group is total on disjoint keys; the constructor, union, time_span and merge_close_intervals drop metadata rather than misattach it. The pre-repair forms "
+         "(boolean Series aligned by label, unsorted merged metadata) are kept as _orig models with their refutation witnesses.",
+    note="Trusted: Coq kernel; Model/Meta.v (pandas loc/iloc/reset_index/get_indexer/sort_index as association-list functions) tied by complete enumeration of all index expressions "
+         "over 4-5 tagged elements, all raw constructor inputs of <=3 intervals and all pairs of small canonical sets; tagged-data oracle independent of pandas. Save/load, "
+         "merge_group(reset_index=True) and operand corruption are exercised through the public API only.",
+    technique="Coq proof over an executable model of the metadata bookkeeping + extracted-model/implementation correspondence + tagged-data oracle",
+    design="5 C13")
+CLAIMED["C17"] = dict(
+    text="PARTIAL proof: pynapple's tuning-curve estimators attribute each spike in ep to the feature sample nearest in time within its own epoch (reusing C06) and count it in "
+         "exactly one histogram bin; spikes in = sum of rate x occupancy; unvisited bins give NaN and never infinity; discrete curves are spikes per total duration; the continuous "
+         "variants are per-bin means except on the last edge (refuted there: known finding); decode's posterior is the normalised prior x E(-bin_size x sum rates) x prod rate^count "
+         "on C05's time bins, decoded at the first maximal bin centre, with posterior rows = decoded bins for pre-binned frames in 1-d and 2-d.",
+    note="Trusted: np.histogram/np.histogram2d (half-open bins, last bin closed), np.digitize (half-open) and exp positive appear as premises of the closed theorems; the executable "
+         "bin rules are checked against NumPy on a complete small space; the exponential factor is checked through a log-identity at 1e-9. Known findings: samples on the last edge "
+         "in the continuous variants; a single-bin occupancy prior raises.",
+    technique="Coq proof with NumPy routines as Section variables + extracted-model/implementation correspondence + statement oracle on discrete quantities",
+    design="5 C17")
 REASON_TODO = "check not built yet in this round (planned: DESIGN.md section 5)"
 m = {
     "version": 1,
